@@ -77,6 +77,58 @@ Proof.
   intros R t0 c0 c1 t Ht HR. unfold ig_rat, enth, entr_poly, div_index, horner. simpl. field. split; assumption.
 Qed.
 
+(** ** normalising evaluators (used for the values printed for the comparison with the implementation): the same
+    functions with [Qred] after every step, so that numerators and denominators stay small; proved equal *)
+Fixpoint hornerR (cs : list Q) (t : Q) : Q :=
+  match cs with
+  | [] => 0
+  | c :: r => Qred (c + t * hornerR r t)
+  end.
+
+Lemma hornerR_eq : forall cs t, hornerR cs t == horner cs t.
+Proof.
+  induction cs as [|c r IH]; intro t.
+  - cbn [hornerR horner]. reflexivity.
+  - cbn [hornerR horner]. transitivity (c + t * hornerR r t); [apply Qred_correct|].
+    rewrite IH. reflexivity.
+Qed.
+
+Definition cpR (cs : list Q) (t : Q) : Q := hornerR cs t.
+Definition enthR (cs : list Q) (t : Q) : Q := Qred (t * hornerR (div_index 1 cs) t).
+Definition entr_polyR (cs : list Q) (t : Q) : Q :=
+  match cs with
+  | [] => 0
+  | _ :: r => Qred (t * hornerR (div_index 1 r) t)
+  end.
+Definition ig_ratR (R t0 : Q) (cs : list Q) (t : Q) : Q :=
+  Qred ((enthR cs t - enthR cs t0 - t * (entr_polyR cs t - entr_polyR cs t0)) / (t * R)).
+
+Lemma cpR_eq : forall cs t, cpR cs t == cp cs t.
+Proof. intros. apply hornerR_eq. Qed.
+
+Lemma enthR_eq : forall cs t, enthR cs t == enth cs t.
+Proof.
+  intros. unfold enthR, enth. transitivity (t * hornerR (div_index 1 cs) t); [apply Qred_correct|].
+  rewrite hornerR_eq. reflexivity.
+Qed.
+
+Lemma entr_polyR_eq : forall cs t, entr_polyR cs t == entr_poly cs t.
+Proof.
+  intros [|c r] t; cbn [entr_polyR entr_poly]; [reflexivity|].
+  transitivity (t * hornerR (div_index 1 r) t); [apply Qred_correct|].
+  rewrite hornerR_eq. reflexivity.
+Qed.
+
+Lemma ig_ratR_eq : forall R t0 cs t, ig_ratR R t0 cs t == ig_rat R t0 cs t.
+Proof.
+  intros. unfold ig_ratR, ig_rat.
+  transitivity ((enthR cs t - enthR cs t0 - t * (entr_polyR cs t - entr_polyR cs t0)) / (t * R)); [apply Qred_correct|].
+  rewrite !enthR_eq, !entr_polyR_eq. reflexivity.
+Qed.
+
+Lemma ideal_gas_evaluator : forall R t0 cs t, ig_ratR R t0 cs t == ig_rat R t0 cs t /\ cpR cs t == cp cs t.
+Proof. intros. split; [apply ig_ratR_eq|apply cpR_eq]. Qed.
+
 (** heat capacity positive on a grid of temperatures *)
 Definition cp_pos_onb (grid : list Q) (cs : list Q) : bool := forallb (fun t => Qltb 0 (cp cs t)) grid.
 
